@@ -110,6 +110,9 @@ class AtomTheory:
 
     def getattr(self, interp, st, v, name, node=None):
         a = v.expr
+        side = st.ghost.get("atom_side_store")
+        if side and (a.get_id(), name) in side:
+            return side[(a.get_id(), name)]
         first = st.ghost.get("atom_attr_first")
         if first is not None:
             r = first(interp, st, v, name, node)
@@ -156,7 +159,11 @@ class AtomTheory:
         h = st.ghost.get("atom_setattr")
         if h is not None:
             return h(interp, st, v, name, value, node)
-        raise Unsupported("store to atom attribute %s" % name)
+        # a function that stores something on a table atom without the contract providing for it:
+        # recorded as a frame violation (table atoms are shared, long-lived objects)
+        st.ghost.setdefault("illegal_writes", []).append("atom.%s" % name)
+        st.ghost.setdefault("atom_side_store", {})[(v.expr.get_id(), name)] = value
+        return None
 
     def contains(self, interp, st, c, item):
         raise Unsupported("'in' on atom")
